@@ -775,3 +775,106 @@ func isByteSlice(t types.Type) bool {
 	b, ok := sl.Elem().Underlying().(*types.Basic)
 	return ok && b.Kind() == types.Byte
 }
+
+// noSelfCacheRule: the clock helpers answer from the clock each time they are asked. A function of
+// the given packages that writes a package-level variable (assignment, or Store/Swap/CompareAndSwap
+// on a package-level atomic or sync value) and also reads that variable is remembering its own
+// earlier answer: the answer then depends on when the function was last called, not only on the
+// clock (and the correction applied to it), and outlives a change of the correction. Judged are the
+// functions that read the clock (time.Now, directly or through the package) and look a variable up
+// before they write it; variables a function only writes (set-up, the synchronised clock tick), reads
+// back after setting (a setter returning the new value), only reads (configuration set by others),
+// or fills on demand from its key alone (time zone -> helper) are not remembered clock readings.
+func noSelfCacheRule(p *core.Program, r *core.Report, rule string, pkgs []string) {
+	for _, rel := range pkgs {
+		pk := p.Pkg(rel)
+		if pk == nil {
+			continue
+		}
+		// functions that read the clock: time.Now() directly, or through functions of the package
+		readsClock := map[*types.Func]bool{}
+		for round := 0; round < 4; round++ {
+			for _, fi := range p.Funcs {
+				if fi.Pkg != pk || fi.Decl.Body == nil || readsClock[fi.Obj] {
+					continue
+				}
+				ast.Inspect(fi.Decl.Body, func(n ast.Node) bool {
+					if call, ok := n.(*ast.CallExpr); ok {
+						if fn := calleeFunc(fi.Pkg.TypesInfo, call); fn != nil {
+							if (fn.Pkg() != nil && fn.Pkg().Path() == "time" && (fn.Name() == "Now" || fn.Name() == "Since")) || readsClock[fn] {
+								readsClock[fi.Obj] = true
+							}
+						}
+					}
+					return true
+				})
+			}
+		}
+		for _, fi := range p.Funcs {
+			if fi.Pkg != pk || fi.Decl.Body == nil || fi.Obj.Name() == "init" {
+				continue
+			}
+			sig := fi.Obj.Type().(*types.Signature)
+			if sig.Results().Len() == 0 {
+				continue
+			}
+			info := fi.Pkg.TypesInfo
+			pkgVar := func(e ast.Expr) *types.Var {
+				root := rootOf(e)
+				if root == nil {
+					return nil
+				}
+				v, ok := info.ObjectOf(root).(*types.Var)
+				if !ok || v.Pkg() == nil || v.Parent() != v.Pkg().Scope() {
+					return nil
+				}
+				return v
+			}
+			written := map[*types.Var]token.Pos{}
+			writeIdents := map[*ast.Ident]bool{}
+			ast.Inspect(fi.Decl.Body, func(n ast.Node) bool {
+				switch v := n.(type) {
+				case *ast.AssignStmt:
+					for _, l := range v.Lhs {
+						if pv := pkgVar(l); pv != nil {
+							if old, had := written[pv]; !had || v.Pos() < old {
+								written[pv] = v.Pos()
+							}
+							writeIdents[rootOf(l)] = true
+						}
+					}
+				case *ast.CallExpr:
+					if sel, ok := ast.Unparen(v.Fun).(*ast.SelectorExpr); ok {
+						switch sel.Sel.Name {
+						case "Store", "Swap", "CompareAndSwap":
+							if pv := pkgVar(sel.X); pv != nil {
+								if old, had := written[pv]; !had || v.Pos() < old {
+									written[pv] = v.Pos()
+								}
+								writeIdents[rootOf(sel.X)] = true
+							}
+						}
+					}
+				}
+				return true
+			})
+			if len(written) == 0 || !readsClock[fi.Obj] {
+				continue // a table filled on demand from its key alone (time zone -> helper) is not a remembered clock reading
+			}
+			bad := ""
+			ast.Inspect(fi.Decl.Body, func(n ast.Node) bool {
+				id, ok := n.(*ast.Ident)
+				if !ok || writeIdents[id] {
+					return true
+				}
+				if v, ok := info.ObjectOf(id).(*types.Var); ok {
+					if wp, w := written[v]; w && id.Pos() < wp { // read first, written afterwards: looked up, then refreshed
+						bad = "reads package-level `" + v.Name() + "` (" + p.Pos(id.Pos()) + ") and writes it (" + p.Pos(wp) + "): it answers from what it remembered at an earlier call, so the answer no longer follows the clock and its correction"
+					}
+				}
+				return true
+			})
+			r.Check(bad == "", rule, core.FuncName(fi.Obj), p.Pos(fi.Decl.Pos()), "writes package-level state it never reads back", bad)
+		}
+	}
+}
